@@ -24,7 +24,9 @@ type Planned struct {
 	Nth    int  // 0-based index among that client's writes (or calls when AnyCall)
 	Any    bool // count all calls, not only writes
 	Kind   Kind
-	fired  bool
+	// Match, when set, replaces the Nth rule: the fault fires on the first call of the client it accepts
+	Match func(c *Call) bool
+	fired bool
 }
 
 // FaultCfg is the per-phase fault configuration. Rates are per 1000 eligible calls.
@@ -45,6 +47,13 @@ func (w *World) decideFault(c *Call) Kind {
 	}
 	for _, p := range f.Plan {
 		if p.fired || p.Client != c.Client.Name {
+			continue
+		}
+		if p.Match != nil {
+			if p.Match(c) {
+				p.fired = true
+				return p.Kind
+			}
 			continue
 		}
 		idx := c.Client.Writes
